@@ -684,22 +684,17 @@ package http2
 //@ props C05 C16 C17
 //@ # indexing the pool array with a type code outside 0..9 would panic
 //@ requires kind: 0 <= ftype && ftype <= 9
-//@ modifies family(Data), family(Headers), family(Priority), family(RstStream), family(Settings), family(PushPromise), family(Ping), family(GoAway), family(WindowUpdate), family(Continuation)
-//@ opt noframe=true
+//@ # (only the object taken from the pool is written: nothing the caller can already reach changes)
 //@ ensures typed: r0 != nil && frameTypeOK(r0, ftype)
 
 //@ func ReleaseFrame
 //@ props C16 C17
 //@ requires typed: fr != nil
-//@ opt noframe=true
-//@ modifies family(Data), family(Headers), family(Priority), family(RstStream), family(Settings), family(PushPromise), family(Ping), family(GoAway), family(WindowUpdate), family(Continuation)
 
 //@ func ReleaseFrameHeader
 //@ props C16 C17
 //@ # the body is released through its Type(): a header without a body cannot be released this way
 //@ requires body: fr != nil && fr.fr != nil
-//@ opt noframe=true
-//@ modifies family(Data), family(Headers), family(Priority), family(RstStream), family(Settings), family(PushPromise), family(Ping), family(GoAway), family(WindowUpdate), family(Continuation)
 
 //@ func (*FrameHeader).readFrom
 //@ props C05 C16
@@ -937,8 +932,6 @@ package http2
 //@ func (*serverConn).write
 //@ props C06 C17
 //@ requires args: sc != nil && fr != nil && fr.fr != nil
-//@ opt noframe=true
-//@ modifies family(Data), family(Headers), family(Priority), family(RstStream), family(Settings), family(PushPromise), family(Ping), family(GoAway), family(WindowUpdate), family(Continuation)
 
 //@ func (*serverConn).writeReset
 //@ props C09 C10
@@ -976,8 +969,7 @@ package http2
 //@ # ASSUMPTION: the int64 window counters do not overflow (they only go down by what has been sent)
 //@ opt noovf=true
 //@ opt noframe=true
-//@ modifies strm.pendingData, strm.window, sc.clientWindow, strm.bodyBuf, strm.bodyRead, strm.pendingEnd, strm.bodyStream, anybytes(),
-//@ |   family(Data), family(Headers), family(Priority), family(RstStream), family(Settings), family(PushPromise), family(Ping), family(GoAway), family(WindowUpdate), family(Continuation)
+//@ modifies strm.pendingData, strm.window, sc.clientWindow, strm.bodyBuf, strm.bodyRead, strm.pendingEnd, strm.bodyStream, anybytes()
 //@ ghost sent = 0
 //@ ghost ended = false
 //@ # both windows go down by exactly what has been sent; nothing is sent on a closed window
@@ -1056,8 +1048,7 @@ package http2
 //@ requires args: scOK(sc) && st != nil
 //@ requires enc: hpackOK(sc.enc)
 //@ opt noframe=true
-//@ modifies sc.clientS, capacity(sc.clientS.rawSettings), sc.enc.maxTableSizeSettings, sc.enc.maxTableSize, sc.enc.pendingSizeUpdate, sc.enc.dynamic, contents(sc.enc.dynamic), family(HeaderField),
-//@ |   family(Data), family(Headers), family(Priority), family(RstStream), family(Settings), family(PushPromise), family(Ping), family(GoAway), family(WindowUpdate), family(Continuation)
+//@ modifies sc.clientS, capacity(sc.clientS.rawSettings), sc.enc.maxTableSizeSettings, sc.enc.maxTableSize, sc.enc.pendingSizeUpdate, sc.enc.dynamic, contents(sc.enc.dynamic), family(HeaderField)
 //@ # the peer's values are recorded, the encoder's table is cut down to the peer's HEADER_TABLE_SIZE, and one ACK is queued
 //@ ensures recorded: sc.clientS.frameSize == old(st.frameSize) && sc.clientS.maxStreams == old(st.maxStreams) && sc.clientS.windowSize == old(st.windowSize) && sc.clientS.tableSize == old(st.tableSize)
 //@ ensures table: sc.enc.maxTableSize == old(st.tableSize) && sc.enc.maxTableSizeSettings == old(st.tableSize)
@@ -1238,6 +1229,8 @@ package http2
 //@ # frames handed to the stream loop by the read loop (proved at the sends in readLoop: assert typed)
 //@ chan serverConn.reader: self.fr != nil && 0 <= self.kind && self.kind <= 9 && frameTypeOK(self.fr, self.kind) && self.length >= 0 && self.length <= 16777215
 //@ # streams coming back from their handlers
+//@ # handlerDone is never closed (handlers select on handlerStop instead), so a receive always yields a stream
+//@ neverclosed serverConn.handlerDone
 //@ chan serverConn.handlerDone: self.ctx != nil && self.recvBody >= 0 && self.bodyStream == nil
 
 //@ func fasthttpResponseHeaders
@@ -1255,8 +1248,7 @@ package http2
 //@ requires fresh: strm.bodyStream == nil
 //@ opt noframe=true
 //@ modifies strm.pendingData, strm.window, sc.clientWindow, strm.bodyBuf, strm.bodyRead, strm.pendingEnd, strm.bodyStream, strm.bodySize, anybytes(),
-//@ |   sc.enc.pendingSizeUpdate, sc.enc.dynamic, capacity(sc.enc.dynamic), family(HeaderField), family(FrameHeader),
-//@ |   family(Data), family(Headers), family(Priority), family(RstStream), family(Settings), family(PushPromise), family(Ping), family(GoAway), family(WindowUpdate), family(Continuation)
+//@ |   sc.enc.pendingSizeUpdate, sc.enc.dynamic, capacity(sc.enc.dynamic), family(HeaderField)
 //@ # the response starts with exactly one HEADERS frame, queued before any DATA
 //@ ensures headers: called((*serverConn).write) == 1
 //@ ensures enc: hpackOK(sc.enc)
@@ -1325,6 +1317,10 @@ package http2
 //@ loop 0: invariant rwin: sc.maxWindow >= 0 && sc.currentWindow >= sc.maxWindow / 2 && sc.currentWindow <= sc.maxWindow
 //@ loop 0: invariant swin: sc.clientWindow <= 2147483647
 //@ loop 0: invariant table: strmsOK(strms)
+//@ # the frame handled in the last iteration is released at the top of the next one
+//@ loop 0: invariant handled: handled == nil || handled.fr != nil
+//@ # the ring of recently closed stream ids (at most 256 of them)
+//@ loop 0: invariant ring: closedOldest >= 0 && closedOldest < 256 && len(closedRing) <= 256
 //@ # ---- SETTINGS_INITIAL_WINDOW_SIZE: the delta reaches every stream in the table (RFC 7540 6.9.2) ----
 //@ loop 3: invariant conn: scInv(sc)
 //@ loop 3: invariant table: forall(i, 0, len(strms), strms[i] != nil && strms[i].ctx != nil && strms[i].recvBody >= 0)
